@@ -32,6 +32,7 @@ class Step:
         self.clock = None
         self.note = None
         self.archive_info = None
+        self.archive_path = None
 
 
 class Run:
@@ -149,6 +150,7 @@ def execute(scn, seed, plans=None, snapshots=True, keep=False, stop_after=None, 
                         world.count("fault.archive_" + op["corrupt"]["kind"])
                     src = dst
                 op["archive_path"] = str(src)
+                st.archive_path = str(src)
                 st.archive_info = _archive_rows(src)
             op["argv"] = S.op_argv(op)
             if snapshots:
@@ -172,9 +174,11 @@ def execute(scn, seed, plans=None, snapshots=True, keep=False, stop_after=None, 
                 st.after = sim.snapshot(root)
         run.stats = dict(world.stats)
         run.sim_seconds = world.sim_seconds
-    finally:
-        if not keep:
-            _safe_rmtree(work)
+    except BaseException:
+        _safe_rmtree(work)
+        raise
+    if not keep:
+        _safe_rmtree(work)
     return run
 
 
@@ -219,6 +223,20 @@ def _plant(world, root, op):
     """manual additions to the project tree"""
     out = root / "cond-out"
     for item in op["items"]:
+        if item["kind"] == "archive_version_dir":
+            # an unrecorded directory exactly where a restore of that archive will want to copy to
+            rows = _archive_rows(root.parent / "arch" / (item["archive"] + ".tar.gz")) or []
+            if not rows:
+                continue
+            from . import model as _M
+
+            r = rows[item.get("idx", 0) % len(rows)]
+            p = out / _M.out_dir_rel(r[0], r[1])
+            if not p.exists():
+                p.mkdir(parents=True, exist_ok=True)
+                (p / "planted.txt").write_bytes(b"planted before restore")
+                world.count("fault.archive_preexisting_directory")
+            continue
         p = out / item["path"] if not item.get("outside") else root.parent / item["path"]
         kind = item["kind"]
         if kind == "dir":
@@ -266,6 +284,47 @@ def _archive_rows(path):
 # process kill: run the invocation in a forked copy of the simulator that dies at instant k
 
 
+_SUBREAPER = False
+
+
+def _become_subreaper():
+    """orphans of a killed forked simulator (a real `tar`) are re-parented to this process, so they can
+    be killed and waited for before the disk is inspected (PID 1 of the sandbox reaps only once a second)"""
+    global _SUBREAPER
+    if _SUBREAPER:
+        return
+    import ctypes
+
+    try:
+        libc = ctypes.CDLL(None, use_errno=True)
+        libc.prctl(36, 1, 0, 0, 0)  # PR_SET_CHILD_SUBREAPER
+    except Exception:
+        pass
+    _SUBREAPER = True
+
+
+def _reap_group(pgid):
+    """kill whatever real process the dead child left in its process group and wait until it is gone"""
+    import signal as _signal
+    import time as _time
+
+    try:
+        sim.REAL.killpg(pgid, _signal.SIGKILL)
+    except (ProcessLookupError, PermissionError):
+        return
+    for _ in range(4000):
+        try:
+            sim.REAL.waitpid(-pgid, 0)
+            continue
+        except ChildProcessError:
+            pass
+        try:
+            sim.REAL.killpg(pgid, 0)
+        except (ProcessLookupError, PermissionError):
+            return
+        _time.sleep(0.0005)
+
+
 def run_forked(world, op, work):
     """The child executes the invocation; if the kill instant is reached it dies through os._exit
     inside the monitoring callback, leaving on disk exactly what a killed process leaves.  Events
@@ -281,10 +340,17 @@ def run_forked(world, op, work):
 
     sys.stdout.flush()
     sys.stderr.flush()
+    _become_subreaper()
     pid = os.fork()
     if pid == 0:
         code = 0
         try:
+            # own process group, so that real helper processes (tar) that outlive a kill can be
+            # removed before the disk is inspected; their chatter is not ours
+            os.setpgid(0, 0)
+            dn = os.open(os.devnull, os.O_WRONLY)
+            os.dup2(dn, 1)
+            os.dup2(dn, 2)
             world.stream = os.open(stream_path, os.O_WRONLY | os.O_CREAT | os.O_APPEND, 0o600)
             inv = world.run_cond(op)
             inv.trace = list(inv.trace)
@@ -305,6 +371,7 @@ def run_forked(world, op, work):
             os._exit(code)
     _, status = sim.REAL.waitpid(pid, 0)
     ec = os.waitstatus_to_exitcode(status)
+    _reap_group(pid)
     if ec == 0 and os.path.exists(result_path):
         with open(result_path, "rb") as f:
             d = pickle.load(f)
